@@ -72,6 +72,7 @@ theorem client_body_le_limit (cfg : Cfg) (Z : Bytes → GzRes) (segs : List Byte
     · split at e
       · cases e
       · cases e
+      · cases e
       · split at e
         · cases e
         · cases e; omega
@@ -83,11 +84,11 @@ theorem client_body_le_limit (cfg : Cfg) (Z : Bytes → GzRes) (segs : List Byte
 def client_agrees_with_spec_full : Prop :=
   ∀ (cfg : Cfg) (Z : Bytes → GzRes) (s : Bytes) (eof : Bool), (run cfg Z [s] eof).toSpec = Spec.readAll cfg Z s eof
 
-/-- the witness: a close-delimited gzip body that stops inside the member -/
+/-- the witness: a close-delimited gzip body with data behind the first member -/
 def wStream : Bytes :=
   "HTTP/1.1 200 OK\r\nContent-Encoding: gzip\r\n\r\nA".toList.map Char.toNat
 def wCfg : Cfg := { isHead := false, decompress := true, maxBody := 100 }
-def wZ : Bytes → GzRes := fun _ => ⟨[66], .trunc⟩
+def wZ : Bytes → GzRes := fun _ => ⟨[66], .trail⟩
 
 theorem witness_model : run wCfg wZ [wStream] true =
     .ok 200 [79, 75] [("X-Consumed-Content-Encoding".toList.map Char.toNat, "gzip".toList.map Char.toNat)] [66] := by
@@ -95,13 +96,35 @@ theorem witness_model : run wCfg wZ [wStream] true =
 
 theorem witness_spec : Spec.readAll wCfg wZ wStream true = none := by decide
 
-/-- **gzip_strict_refuted**: the code as it is accepts a truncated gzip member (known finding), so the full statement
-    fails. -/
-theorem gzip_strict_refuted : ¬ client_agrees_with_spec_full := by
+/-- **gzip_trailing_refuted**: the code as it is drops whatever follows the first gzip member (known finding
+    `gz-trail`), so the full statement fails. -/
+theorem gzip_trailing_refuted : ¬ client_agrees_with_spec_full := by
   intro h
   have := h wCfg wZ wStream true
   rw [witness_model, witness_spec] at this
   simp [Res.toSpec] at this
+
+/-- **gzip_truncated_rejected**: a gzip body that stops inside the member fails the fetch (fixed: `finish()` looks at
+    the decompressor's end-of-stream flag) — for every stream, segmentation and zlib behaviour. -/
+theorem gzip_truncated_rejected (cfg : Cfg) (Z : Bytes → GzRes) (segs : List Bytes) (eof : Bool) (raw : Bytes)
+    (h : rawGzBody cfg segs eof = some raw) (ht : (Z raw).st = .trunc) : run cfg Z segs eof = .err .closed := by
+  unfold rawGzBody at h
+  unfold run
+  cases ha : atEnd cfg eof (runPhase cfg segs) with
+  | fail k => simp [ha] at h
+  | msg m r =>
+    simp only [ha] at h
+    split at h
+    · rename_i hg
+      cases h
+      simp only [assemble, hg, ↓reduceIte, ht]
+    · cases h
+
+/-- the same stream, the decompressor stopping inside the member -/
+def truncZ : Bytes → GzRes := fun _ => ⟨[66], .trunc⟩
+
+example : rawGzBody wCfg [wStream] true = some [65] ∧ (truncZ [65]).st = .trunc ∧
+    run wCfg truncZ [wStream] true = .err .closed ∧ Spec.readAll wCfg truncZ wStream true = none := by decide
 
 /-! ### segmentation independence -/
 
@@ -120,62 +143,64 @@ theorem client_segmentation_independent (cfg : Cfg) (Z : Bytes → GzRes) (segs 
 
 example : run wCfg wZ [wStream.take 7, wStream.drop 7] true = run wCfg wZ [wStream] true := by decide
 
-/-! ### agreement with the strict batch reader, outside the recorded gzip leniencies -/
+/-! ### agreement with the strict batch reader, outside the recorded gzip leniency -/
 
 /-- **client_agrees_with_spec**: with `decompress_response` off, the machine run on the whole stream returns exactly
     what the strict batch reader `Spec.readAll` extracts, and fails exactly when that reader rejects the stream —
     every framing (Content-Length, chunked, close-delimited), 1xx chains, 204/304/HEAD, every limit. -/
 theorem client_agrees_with_spec (cfg : Cfg) (Z : Bytes → GzRes) (s : Bytes) (eof : Bool)
     (hd : cfg.decompress = false) : (run cfg Z [s] eof).toSpec = Spec.readAll cfg Z s eof := by
-  have h := read_agree cfg Z eof (s.length + 1) s (Nat.le_refl _) (Or.inl hd)
+  have h := read_agree cfg Z eof (s.length + 1) s false (Nat.le_refl _) (Or.inl hd)
   simpa [run, runPhase, feed, initial, Spec.readAll] using h
 
 example : (run { wCfg with decompress := false } wZ [wStream] true).toSpec =
     some (.ok 200 [79, 75] [("Content-Encoding".toList.map Char.toNat, "gzip".toList.map Char.toNat)] [65]) := by
   decide
 
-/-- **client_agrees_with_spec_gz**: the same with `decompress_response` on, under the two explicit (decidable) side
-    conditions that exclude the recorded gzip leniencies: no interim (1xx) response switched the decompressor on
-    (`interimGz`), and on the body actually handed to zlib the decompressor neither stopped inside the member nor
-    left data behind it (`ZOk`: not `trunc`, not `trail`).  A corrupt member (`bad`) and an inflated body over
-    `max_body_size` are covered: both sides reject. -/
+/-- **client_agrees_with_spec_gz**: the same with `decompress_response` on, under the one explicit (decidable) side
+    condition that excludes the recorded gzip leniency: on the body actually handed to zlib the decompressor did not
+    leave data behind the first member (`ZOk`: not `trail`).  A member that stops short (`trunc`), a corrupt member
+    (`bad`), an inflated body over `max_body_size` and `Content-Encoding: gzip` on interim (1xx) responses are
+    covered: model and strict reader agree. -/
 theorem client_agrees_with_spec_gz (cfg : Cfg) (Z : Bytes → GzRes) (s : Bytes) (eof : Bool)
-    (h1 : interimGz cfg (s.length + 1) s = false) (h2 : ∀ raw ∈ rawGzBody cfg [s] eof, ZOk (Z raw)) :
+    (h2 : ∀ raw ∈ rawGzBody cfg [s] eof, ZOk (Z raw)) :
     (run cfg Z [s] eof).toSpec = Spec.readAll cfg Z s eof := by
   have hrun : runPhase cfg [s] = (drainFull cfg (.head false) s).1 := by
     simp [runPhase, feed, initial]
-  have h := read_agree cfg Z eof (s.length + 1) s (Nat.le_refl _) (Or.inr ⟨h1, by
+  have h := read_agree cfg Z eof (s.length + 1) s false (Nat.le_refl _) (Or.inr (by
     intro m raw hat hg hr
     apply h2 raw
     have hne : raw.isEmpty = false := by cases raw <;> simp_all
-    simp [rawGzBody, hrun, hat, hg, hne]⟩)
+    simp [rawGzBody, hrun, hat, hg, hne]))
   simpa [run, hrun, Spec.readAll] using h
 
 /-- a complete member -/
 def okZ : Bytes → GzRes := fun _ => ⟨[66], .complete⟩
 
-example : interimGz wCfg (wStream.length + 1) wStream = false ∧ (∀ raw ∈ rawGzBody wCfg [wStream] true, ZOk (okZ raw)) ∧
+example : (∀ raw ∈ rawGzBody wCfg [wStream] true, ZOk (okZ raw)) ∧
     rawGzBody wCfg [wStream] true = some [65] ∧
     Spec.readAll wCfg okZ wStream true = some (.ok 200 [79, 75]
       [("X-Consumed-Content-Encoding".toList.map Char.toNat, "gzip".toList.map Char.toNat)] [66]) := by
   decide
 
-/-- the statement with only the zlib side condition -/
-def client_agrees_with_spec_zok_full : Prop :=
-  ∀ (cfg : Cfg) (Z : Bytes → GzRes) (s : Bytes) (eof : Bool), (∀ raw ∈ rawGzBody cfg [s] eof, ZOk (Z raw)) →
-    (run cfg Z [s] eof).toSpec = Spec.readAll cfg Z s eof
+/-- **interim_flag_irrelevant**: the decompressor an interim (1xx) response may have created is never consulted —
+    the outcome of reading on from "awaiting a header block" does not depend on the flag it left behind (fixed:
+    `headers_received` starts every message without a decompressor). -/
+theorem interim_flag_irrelevant (cfg : Cfg) (g eof : Bool) (b : Bytes) :
+    atEnd cfg eof (drainFull cfg (.head g) b).1 = atEnd cfg eof (drainFull cfg (.head false) b).1 := by
+  unfold drainFull
+  simp only [drain, step]
+  cases findHeadEnd b <;> rfl
 
 /-- an interim response with `Content-Encoding: gzip`, then an identity-coded final response -/
 def wSticky : Bytes :=
   "HTTP/1.1 100 Continue\r\nContent-Encoding: gzip\r\n\r\nHTTP/1.1 200 OK\r\nContent-Length: 1\r\n\r\nA".toList.map
     Char.toNat
 
-/-- **interim_sticky_refuted**: the `interimGz` side condition is needed — the code as it is keeps the decompressor
-    of a 1xx response for the final one (known finding `interim-content-encoding-sticky`). -/
-theorem interim_sticky_refuted : ¬ client_agrees_with_spec_zok_full := by
-  intro h
-  have h' := h wCfg okZ wSticky true (by decide)
-  revert h'
+/-- the former witness of the `interim-content-encoding-sticky` finding: the final response is delivered as it is -/
+example : rawGzBody wCfg [wSticky] true = none ∧
+    run wCfg okZ [wSticky] true = .ok 200 [79, 75] [("Content-Length".toList.map Char.toNat, [49])] [65] ∧
+    Spec.readAll wCfg okZ wSticky true = some (.ok 200 [79, 75] [("Content-Length".toList.map Char.toNat, [49])] [65]) := by
   decide
 
 /-! ### what reaches `streaming_callback` -/
